@@ -15,7 +15,7 @@ from props.c01 import subst_tags
 ENG = None
 FUNC_CANON = {'IFNULL': 'COALESCE', 'RAND': 'RANDOM', 'CHAR_LENGTH': 'LENGTH'}
 PORTABLE = {
-    'select': [['distinct', 'valitem', 'case', 'from', 'arity', 'vrows', 'cte'], ['from', 'join', 'w1', 'w2', 'insub', 'group', 'having'], ['w1', 'union', 'utype', 'order', 'ordnulls', 'ordfunc', 'limit', 'offset'], ['window', 'frame', 'order', 'limit']],
+    'select': [['distinct', 'valitem', 'case', 'from', 'arity', 'vrows', 'cte', 'funcs'], ['from', 'join', 'w1', 'w2', 'insub', 'group', 'having'], ['w1', 'union', 'utype', 'order', 'ordnulls', 'ordfunc', 'limit', 'offset'], ['window', 'frame', 'order', 'limit']],
     'insert': [['rows', 'cols', 'select']], 'update': [['set2', 'where']], 'delete': [['where', 'where2']], 'with': [['cte2', 'nested', 'recursive', 'kind', 'limit']],
 }
 
